@@ -7,6 +7,7 @@ by name with bracket matching, never by line number.  If an item is missing or
 has a shape this script does not understand it exits non-zero, which the check
 treats as a broken correspondence.  Part of the trusted base (see DESIGN.md §8).
 """
+import json
 import re
 import sys
 import os
@@ -256,12 +257,22 @@ def const_str(src, name):
 
 
 ERRORS = []
+DEFAULTS_PATH = os.path.join(os.path.dirname(os.path.abspath(__file__)), "translate_defaults.json")
+try:
+    with open(DEFAULTS_PATH) as _f:
+        DEFAULTS = json.load(_f)
+except Exception:
+    DEFAULTS = {}
+RECORDED = {}
 
 
 class section:
-    """one independent group of facts: when it cannot be translated the facts are simply missing from Extracted.v
-    (so exactly the Coq files that use them stop compiling) and the reason is reported, instead of the whole
-    translation failing; a later section that needs a variable of a failed one is dropped the same way"""
+    """one independent group of facts.  When the source no longer has a shape this script understands, the section
+    falls back to the values recorded from the pinned tree (tools/translate_defaults.json) — the hand-written
+    model's own assumptions — says so in Extracted.v and on stderr, and the tie between that part of the model and
+    the code is then the correspondence run alone.  Without a recorded value the facts are simply missing and the
+    Coq files that use them stop compiling.  A later section that needs a variable of a failed one is treated the
+    same way."""
 
     def __init__(self, L, name):
         self.L, self.name = L, name
@@ -271,12 +282,21 @@ class section:
         return self
 
     def __exit__(self, et, ev, tb):
-        if et is not None and issubclass(et, (TranslateError, NameError)):
+        if et is None:
+            RECORDED[self.name] = self.L[self.mark:]
+            return False
+        if issubclass(et, (TranslateError, NameError)):
             del self.L[self.mark:]
             reason = str(ev).replace("*)", "* )")
-            self.L.append(f"(* NOT TRANSLATED — {self.name}: {reason} *)")
-            self.L.append("")
-            ERRORS.append(f"{self.name}: {ev}")
+            if self.name in DEFAULTS:
+                self.L.append(f"(* NOT RE-READ FROM THE SOURCE this run — {self.name}: {reason}")
+                self.L.append("   the recorded values of the pinned tree are used; this part is tied to the code by the correspondence run only *)")
+                self.L.extend(DEFAULTS[self.name])
+                ERRORS.append(f"fallback to recorded values — {self.name}: {ev}")
+            else:
+                self.L.append(f"(* NOT TRANSLATED — {self.name}: {reason} *)")
+                self.L.append("")
+                ERRORS.append(f"missing — {self.name}: {ev}")
             return True
         return False
 
@@ -869,5 +889,7 @@ if __name__ == "__main__":
         print(f"translate.py: {e}", file=sys.stderr)
         sys.exit(2)
     for e in ERRORS:
-        # not fatal: Extracted.v was written without these facts; the files that need them will not compile
-        print(f"translate.py: NOT TRANSLATED: {e}", file=sys.stderr)
+        print(f"translate.py: {e}", file=sys.stderr)
+    if os.environ.get("VERIF_RECORD_TRANSLATE_DEFAULTS") == "1" and not ERRORS:
+        with open(DEFAULTS_PATH, "w") as f:
+            json.dump(RECORDED, f, indent=1)
